@@ -207,6 +207,8 @@ enum Req {
     /// allocate, then grow / grow_zeroed / shrink / deallocate-and-allocate-again, all through the `Allocator`
     /// implementation of one handle
     RawSession(Layout, Layout, u8),
+    /// prepare_allocation(_rev) + allocate_prepared(_rev) through every `BumpAllocatorCore` implementor
+    PrepareCommit(Layout, usize, bool),
 }
 
 #[derive(Clone, Copy, PartialEq, Eq, Debug)]
@@ -467,6 +469,44 @@ where
             };
             (o, format!("checkpoint/reset_to via {}", names[k]))
         }
+        Req::PrepareCommit(l, used, rev) => {
+            let names = ["Bump", "&Bump", "BumpScope", "&BumpScope", "WoD<&BumpScope>", "WoS<&BumpScope>", "dyn Core"];
+            let k = ep % names.len();
+            fn run<B: BumpAllocatorCore + ?Sized>(b: &B, l: Layout, used: usize, rev: bool) -> Result<NonNull<u8>, AllocError> {
+                let claimed = b.is_claimed();
+                assert!(!claimed, "is_claimed() of an unclaimed arena");
+                let commit = Layout::from_size_align(used, l.align()).unwrap();
+                if rev {
+                    let range = b.prepare_allocation_rev(l)?;
+                    Ok(unsafe { b.allocate_prepared_rev(commit, range) })
+                } else {
+                    let range = b.prepare_allocation(l)?;
+                    Ok(unsafe { b.allocate_prepared(commit, range) })
+                }
+            }
+            let sc = side.bump.as_scope();
+            let r = guarded(|| match k {
+                0 => run(&side.bump, l, used, rev),
+                1 => run(&&side.bump, l, used, rev),
+                2 => run(sc, l, used, rev),
+                3 => run(&sc, l, used, rev),
+                4 => run(&WithoutDealloc(sc), l, used, rev),
+                5 => run(&WithoutShrink(sc), l, used, rev),
+                _ => {
+                    let d: &dyn BumpAllocatorCore = sc;
+                    run(d, l, used, rev)
+                }
+            });
+            let o = match r {
+                Ok(Ok(p)) => {
+                    unsafe { p.as_ptr().write_bytes(0x5C, used) };
+                    block(side, p, used)
+                }
+                Ok(Err(_)) => Out::Err,
+                Err(p) => Out::Panic(format!("{:?}", classify(&p))),
+            };
+            (o, format!("prepare_allocation{0} + allocate_prepared{0} via {1}", if rev { "_rev" } else { "" }, names[k]))
+        }
         Req::RawSession(l1, l2, kind) => {
             let names = ["Bump", "&Bump", "BumpScope", "&BumpScope", "&mut BumpScope", "dyn Core", "&mut dyn MutCore"];
             let k = ep % names.len();
@@ -564,7 +604,13 @@ fn gen_req(rng: &mut Rng, rem: usize) -> Req {
         })
         .min(6000)
     };
-    match rng.below(35) {
+    match rng.below(37) {
+        35 | 36 => {
+            let align = 1usize << rng.below(5);
+            let size = *rng.pick(&[0, 1, 13, 64, 200, rem / 2, rem, rem + 1, rem + 200]);
+            let used = *rng.pick(&[0, size, size / 2, size.saturating_sub(1), size.min(7)]);
+            Req::PrepareCommit(Layout::from_size_align(size, align).unwrap(), used, rng.bool())
+        }
         32 | 33 | 34 => {
             let kind = rng.below(4) as u8;
             let a1 = 1usize << rng.below(6);
@@ -679,6 +725,7 @@ fn n_eps(req: &Req) -> usize {
         Req::CheckpointReset(_) => 7,
         Req::TryWith(..) => 8,
         Req::RawSession(..) => 7,
+        Req::PrepareCommit(..) => 7,
         Req::TypedLayout(_) => 8,
         _ => 16,
     }
@@ -693,7 +740,7 @@ fn is_wrapper(req: &Req, ep: usize) -> bool {
         Req::TypedLayout(_) => ep % 8 == 6,
         Req::VecSession(..) => ep % 4 == 2,
         Req::MutVecSession(..) => matches!(ep % 5, 2 | 3),
-        Req::CheckpointReset(_) => matches!(ep % 7, 4 | 5),
+        Req::CheckpointReset(_) | Req::PrepareCommit(..) => matches!(ep % 7, 4 | 5),
         Req::TryWith(..) | Req::RawSession(..) => false,
         // (the trait-object `reserve` needs one contiguous block where the typed one may count the chunks it already
         // has: with a refusing base allocator the two legitimately differ, so it is left out like the wrappers)
